@@ -10,8 +10,8 @@ import asyncio
 from collections.abc import Callable
 import logging
 
-from xknx.exceptions import CommunicationError, CouldNotParseKNXIP, IncompleteKNXIPFrame
-from xknx.knxip import HPAI, HostProtocol, KNXIPFrame
+from xknx.exceptions import CommunicationError, CouldNotParseKNXIP
+from xknx.knxip import HPAI, HostProtocol, KNXIPFrame, KNXIPHeader
 
 from .ip_transport import KNXIPTransport
 
@@ -86,33 +86,51 @@ class TCPTransport(KNXIPTransport):
         if self._buffer:
             raw = self._buffer + raw
             self._buffer = b""
-        if not raw:
-            return
-        try:
-            knxipframe, next_frame_part = KNXIPFrame.from_knx(raw)
-        except IncompleteKNXIPFrame:
-            self._buffer = raw
-            raw_socket_logger.debug(
-                "Incomplete KNX/IP frame. Waiting for rest: %s", raw.hex()
-            )
-            return
-        except CouldNotParseKNXIP as couldnotparseknxip:
-            knx_logger.debug(
-                "Unsupported KNXIPFrame from %s: %s in %s",
-                self.remote_hpai,
-                couldnotparseknxip.description,
-                raw.hex(),
-            )
-        else:
+        # iterate over all KNX/IP frames in the received data (no recursion: a chunk
+        # may hold thousands of frames)
+        while raw:
+            if raw[0] != KNXIPHeader.HEADERLENGTH:
+                knx_logger.debug(
+                    "Unreadable KNX/IP header from %s - dropping data: %s",
+                    self.remote_hpai,
+                    raw.hex(),
+                )
+                return
+            if len(raw) < KNXIPHeader.HEADERLENGTH:
+                self._buffer = raw
+                return
+            total_length = int.from_bytes(raw[4:6], "big")
+            if total_length < KNXIPHeader.HEADERLENGTH:
+                knx_logger.debug(
+                    "Invalid KNX/IP total length from %s - dropping data: %s",
+                    self.remote_hpai,
+                    raw.hex(),
+                )
+                return
+            if len(raw) < total_length:
+                self._buffer = raw
+                raw_socket_logger.debug(
+                    "Incomplete KNX/IP frame. Waiting for rest: %s", raw.hex()
+                )
+                return
+            # split off current frame; continue with data after it in any case
+            frame_data, raw = raw[:total_length], raw[total_length:]
+            try:
+                knxipframe, _ = KNXIPFrame.from_knx(frame_data)
+            except CouldNotParseKNXIP as couldnotparseknxip:
+                knx_logger.debug(
+                    "Unsupported KNXIPFrame from %s: %s in %s",
+                    self.remote_hpai,
+                    couldnotparseknxip.description,
+                    frame_data.hex(),
+                )
+                continue
             knx_logger.debug(
                 "Received from %s: %s",
                 self.remote_hpai,
                 knxipframe,
             )
             self.handle_knxipframe(knxipframe, self.remote_hpai)
-        # parse data after current KNX/IP frame
-        if next_frame_part:
-            self.data_received_callback(next_frame_part)
 
     async def connect(self) -> None:
         """Connect TCP socket."""
